@@ -71,6 +71,13 @@ def judge_case(prop: str, c: dict, v: dict, run: Run) -> None:
                               dict(base, exception=r["fail2"]))
             else:
                 run.violation(symptoms.c06_key(out, r["out2"]), "C06_Stable", dict(base, output2=r["out2"]))
+        elif v.get("c06_pre") and v.get("c06_test") is False:
+            from ..project import has_error, has_error_mod_tc
+            why = "formals_trailing_comma" if has_error(out) and not has_error_mod_tc(out) else \
+                "output_has_syntax_error" if has_error(out) else "flagged_without_error"
+            if why == "output_has_syntax_error":      # the same symptom signature as C01's, so that a new cause is a new key
+                why += "|" + symptoms.c01_key(text, out)
+            run.violation(f"C06_TestRejects|{why}", "C06_TestAccepts", base)
     elif prop == "C18":
         if v.get("c18") is False:
             run.violation(symptoms.c18_key(out, v["c18_at"], v.get("c18_clauses", [])), "C18_Normal",
